@@ -1,7 +1,14 @@
 package mon
 
 import (
+	"bytes"
+	"errors"
 	"fmt"
+	"io"
+	"math"
+	"time"
+
+	"github.com/cloudwego/gopkg/bufiox"
 
 	"verifharness/doubles"
 	"verifharness/drv"
@@ -151,6 +158,79 @@ func monC04(c *drv.Ctx) {
 		runReaderHistory(cs, ops, spec, readerOpts{})
 		cs.Count(true, "zerorun", run, sched)
 		cs.C.ObsMax("max_zero_run_tolerated", int64(run))
+	})
+
+	// (3c) a bytes-backed reader asked for far more than it holds: everything there will ever be is in the
+	// slice, so the answer is the source's error (io.EOF), for every n, with nothing consumed
+	hugeN := []int{1 << 20, 1 << 31, 1<<32 + 7, 1 << 40, 1 << 45, 1 << 50, 1 << 61, 1<<62 + 1, math.MaxInt64}
+	c.Stage("bytes-reader-huge-requests", int64(len(hugeN)*3*3*3), true, func(cs *drv.Case) {
+		i := int(cs.Idx)
+		n := hugeN[i%len(hugeN)]
+		i /= len(hugeN)
+		kind := i % 3 // Next, Peek, Skip
+		i /= 3
+		pre := i % 3 // nothing, Next(3), Next(3)+Release
+		i /= 3
+		L := []int{0, 10, 5000}[i%3]
+		data := make([]byte, L)
+		for k := range data {
+			data[k] = byte(k*7 + 1)
+		}
+		in := place(data, 0)
+		cs.Desc = M{"n": n, "op": []string{"Next", "Peek", "Skip"}[kind], "pre": pre, "data_len": L}
+		rd := bufiox.NewBytesReader(in)
+		pos := 0
+		if pre >= 1 && L >= 3 {
+			if b, err := rd.Next(3); err != nil || !bytes.Equal(b, data[:3]) {
+				cs.Fail("reader-wrong-bytes", M{"op": "Next"}, M{"message": "Next(3) on a bytes reader failed", "err": errString(err)})
+				return
+			}
+			pos = 3
+			if pre == 2 {
+				rd.Release(nil)
+			}
+		}
+		before := rd.ReadLen()
+		var err error
+		var got []byte
+		returned, pnc := cs.C.Bounded(60*time.Second, fmt.Sprintf("bytes reader %s(%d) on %d bytes", []string{"Next", "Peek", "Skip"}[kind], n, L), func() {
+			switch kind {
+			case 0:
+				got, err = rd.Next(n)
+			case 1:
+				got, err = rd.Peek(n)
+			default:
+				err = rd.Skip(n)
+			}
+		})
+		if !returned {
+			return // inconclusive (reported by the driver); the abandoned call keeps the reader
+		}
+		if pnc != nil {
+			panic(pnc)
+		}
+		det := M{"n": n, "op": []string{"Next", "Peek", "Skip"}[kind], "data_len": L, "position": pos, "err": errString(err), "returned": len(got)}
+		if err == nil {
+			cs.Fail("reader-short-success", M{"op": det["op"], "reader": "bytes"}, det)
+			return
+		}
+		if !errors.Is(err, io.EOF) {
+			cs.Fail("reader-wrong-error", M{"op": det["op"], "reader": "bytes"}, det)
+		}
+		if rd.ReadLen() != before {
+			det["readlen_before"], det["readlen_after"] = before, rd.ReadLen()
+			cs.Fail("reader-consumed-on-failure", M{"op": det["op"], "reader": "bytes"}, det)
+		}
+		// the rest of the data is still delivered exactly
+		rest, err2 := rd.Next(L - pos)
+		if err2 != nil || !bytes.Equal(rest, data[pos:]) {
+			det["err_after"] = errString(err2)
+			cs.Fail("reader-wrong-bytes", M{"op": "Next after a failed huge request", "reader": "bytes"}, det)
+		}
+		rd.Release(nil)
+		cs.Count(true, "hugebytes", cs.Idx)
+		cs.C.Obs("huge requests on a bytes reader", 1)
+		cs.C.ObsMax("max_request_on_bytes_reader", int64(n))
 	})
 
 	// (4) no-progress source: (0, nil) forever from some position on
